@@ -721,6 +721,9 @@ package server
 //@ func retwerr
 //@   modifies nothing
 //@   ensures result2 == err
+//@ func retrerr
+//@   modifies nothing
+//@   ensures result1 == err
 //@ func Server.groupDisconnectObject
 //@   assumed
 //@   requires s != nil
@@ -744,6 +747,7 @@ package server
 //@   ensures [exists-iff-nonempty] ksNonEmpty(s)
 //@   ensures [one-collection-per-key] ksInj(s)
 //@   ensures [reply] result2 == nil && msg.OutputType == RESP ==> result0 == respInt(ite(result1.updated, 1, 0))
+//@   ensures [json-reply] result2 == nil && msg.OutputType == JSON ==> jsonDoc(result0)
 //@ func Server.cmdDROPop
 //@   frame-by-effects
 //@   requires s != nil
@@ -759,6 +763,7 @@ package server
 //@   ensures [exists-iff-nonempty] ksNonEmpty(s)
 //@   ensures [one-collection-per-key] ksInj(s)
 //@   ensures [reply] result2 == nil && msg.OutputType == RESP ==> result0 == respInt(ite(result1.updated, 1, 0))
+//@   ensures [json-reply] result2 == nil && msg.OutputType == JSON ==> jsonDoc(result0)
 //@ func Server.cmdRENAME
 //@   frame-by-effects
 //@   entry-assume registriesNonNil(s) && ksNonEmpty(s) && ksInj(s)
@@ -772,6 +777,7 @@ package server
 //@   ensures [exists-iff-nonempty] ksNonEmpty(s)
 //@   ensures [one-collection-per-key] ksInj(s)
 //@   ensures [reply] result2 == nil && msg.OutputType == RESP ==> result0 == ite(lower(msg.Args[0]) != "renamenx", respSimple("OK"), respInt(ite(result1.updated, 1, 0)))
+//@   ensures [json-reply] result2 == nil && msg.OutputType == JSON ==> jsonDoc(result0)
 
 // ---- several MATCH patterns: the scan range is the union of the patterns' ranges (C12) ---------------
 // Whatever lies inside the range glob.Parse gives for one of the patterns lies inside the range multiGlobParse
@@ -793,3 +799,20 @@ package server
 //@   at-call Collection.StringCount [shortcut-only-without-filters] len(sw.wheres) == 0 && len(sw.whereins) == 0 && len(sw.whereevals) == 0 && sw.globEverything && sw.output == outputCount
 // (a cursor of 2^63 or more wraps in int(cursor); not claimed)
 //@   at-call scanWriter.writeFoot#1 [shortcut-count] sargs.cursor < 9223372036854775808 && ierr == nil && sw.col != nil && sw.output == outputCount && len(sw.wheres) == 0 && len(sw.whereins) == 0 && len(sw.whereevals) == 0 && sw.globEverything ==> sw.count == max(sw.col.nobjects - sargs.cursor, 0)
+
+// ---- replies are well-formed JSON documents (C17, the straight-line replies) ---------------------------
+// jsonDoc(x): x is one JSON document, an object with a boolean member "ok" (and "err" when ok is false); decided by
+// vcgo's recogniser over the structure of the reply term (literals + pieces whose JSON class is known).
+//@ func jsonString
+//@   assumed
+//@   modifies nothing
+//@   ensures result == jsStr(s)
+//@ func OKMessage
+//@   modifies nothing
+//@   requires msg != nil
+//@   ensures [json-reply] msg.OutputType == JSON ==> jsonDoc(result)
+//@ func Server.cmdOUTPUT
+//@   requires msg != nil
+//@   modifies msg.OutputType
+//@   ensures [json-reply] result1 == nil && old(msg.OutputType) == JSON && len(msg.Args) == 1 ==> jsonDoc(result0)
+//@   ensures [json-reply.set] result1 == nil && msg.OutputType == JSON && len(msg.Args) == 2 ==> jsonDoc(result0)
